@@ -71,8 +71,7 @@ Print Assumptions C09_leapfrog_reversible.
 (** hmc: for an affine gradient (any Gaussian target, per coordinate), over any commutative ring,
     n leapfrog steps are an affine map of (position, momentum) whose linear part has determinant 1:
     the proposal preserves phase-space volume, so the plain energy difference is the
-    Metropolis-Hastings ratio.  (Volume preservation for non-affine gradients needs the Jacobian
-    of an arbitrary gradient function and is not mechanised.) *)
+    Metropolis-Hastings ratio.  (For non-affine gradients see C09_leapfrog_volume_tangent below.) *)
 Theorem C09_leapfrog_volume_affine :
   forall (R : Type) (zero one : R) (add mul sub : R -> R -> R) (opp : R -> R),
     ring_theory zero one add mul sub opp (@eq R) ->
@@ -81,6 +80,21 @@ Theorem C09_leapfrog_volume_affine :
       (forall s, iterl R add mul G e h n s = aff R add mul M c s) /\ det R mul sub M = one.
 Proof. intros R zero one add mul sub opp Rth G e h a b HG n. eapply leapfrog_volume; eauto. Qed.
 Print Assumptions C09_leapfrog_volume_affine.
+
+(** hmc, arbitrary gradient (one coordinate): [iterT ... G' n s d] is the forward-mode tangent of n
+    leapfrog steps at the phase point s in direction d, computed by the chain rule with G' standing for
+    the derivative of the gradient G.  It is a linear map of d whose matrix (the Jacobian of the n-step
+    map at s) has determinant 1, for every G, G', step size, n and s, over any commutative ring: the
+    proposal preserves phase-space volume.  (That G' is the derivative of G in the analytic sense, and
+    the multi-coordinate case with a symmetric Hessian, are outside this statement.) *)
+Theorem C09_leapfrog_volume_tangent :
+  forall (R : Type) (zero one : R) (add mul sub : R -> R -> R) (opp : R -> R),
+    ring_theory zero one add mul sub opp (@eq R) ->
+    forall (G : R -> R) (e h : R) (G' : R -> R) (n : nat) (s : R * R),
+      (forall d, iterT R add mul G e h G' n s d = mapply R add mul (Jn R zero one add mul G e h G' n s) d)
+      /\ det R mul sub (Jn R zero one add mul G e h G' n s) = one.
+Proof. intros. eapply leapfrog_tangent_volume; eauto. Qed.
+Print Assumptions C09_leapfrog_volume_tangent.
 
 (** rejected moves return the input unchanged; accepted or not, unselected
     coordinates are untouched *)
